@@ -104,7 +104,7 @@ namespace {
   {
     std::ostringstream pbuf;
 
-    if (xact.state() == item_t::UNCLEARED)
+    if (post->state() != xact.state())
       pbuf << (post->state() == item_t::CLEARED ? "* " :
               (post->state() == item_t::PENDING ? "! " : ""));
 
